@@ -156,6 +156,7 @@ pub fn run(ctx: &mut Ctx) {
     cases.extend(matcher_cases(prop, ctx, &cfg, ctx.n(100, 5000)));
     let have_cli = cli::available();
     let mut cli_budget: i64 = if ctx.tier == Tier::Quick { 12 } else { 300 };
+    let mut multi_budget: i64 = if ctx.tier == Tier::Quick { 4 } else { 60 };
     for (name, l) in cases {
         ctx.ev.evaluations += 1;
         // the sum shape divides by ratios with non-terminating reciprocals: the implementation rounds to 28
@@ -245,6 +246,45 @@ pub fn run(ctx: &mut Ctx) {
                     let sect: Vec<&str> = text.split("# TRANSACTIONS").nth(1).unwrap_or("").split("# ASSET EVENTS").next().unwrap_or("").lines().filter(|x| x.contains(" BUY ") || x.contains(" SELL ")).collect();
                     let keys: Vec<(chrono::NaiveDate, String)> = sect.iter().filter_map(|ln| { let w: Vec<&str> = ln.split_whitespace().collect(); Some((chrono::NaiveDate::parse_from_str(w.first()?, "%d/%m/%Y").ok()?, w.get(3)?.to_string())) }).collect();
                     if keys.windows(2).any(|w| w[0] > w[1]) { ctx.ev.violation("oracle", "echoed transactions in the text report are not ordered by date then ticker".into(), replay_text(prop, "oracle", "echo order", &l, &[])); }
+                }
+            }
+        }
+        // several input files, one of them named twice on the command line: read in the order given
+        // (the repeated file twice), the same bytes in every process
+        if have_cli && multi_budget > 0 && l.len() >= 4 {
+            multi_budget -= 1;
+            let s = cli::Scratch::new();
+            let lines: Vec<String> = ledger::dsl(&l).lines().map(|x| x.to_string()).collect();
+            let k = 3 + (l.len() % 3);
+            let mut names: Vec<String> = Vec::new();
+            let mut joined = String::new();
+            for j in 0..k {
+                let part: Vec<&str> = lines.iter().enumerate().filter(|(i, _)| i % k == j).map(|(_, x)| x.as_str()).collect();
+                let nm = format!("q{}.cgt", j + 1);
+                s.write(&nm, &(part.join("\n") + "\n"));
+                names.push(nm);
+            }
+            let mut order: Vec<&str> = names.iter().map(|x| x.as_str()).collect();
+            order.push(names[l.len() % k].as_str());
+            for nm in &order { joined.push_str(&std::fs::read_to_string(s.path(nm)).unwrap_or_default()); joined.push('\n'); }
+            s.write("all.cgt", &joined);
+            let whole = cli::run(&s, &["parse", "all.cgt"]);
+            for head in [vec!["parse"], vec!["report", "--format", "json"]] {
+                let mut args: Vec<&str> = vec![head[0]];
+                args.extend(order.iter().copied());
+                args.extend(head[1..].iter().copied());
+                let a = cli::run(&s, &args);
+                ctx.ev.count("cli-runs-repeated-path");
+                ctx.ev.evaluations += 1;
+                let mut stable = true;
+                for _ in 0..3 {
+                    let b = cli::run(&s, &args);
+                    if a.stdout != b.stdout || a.code != b.code { stable = false; break; }
+                }
+                if !stable {
+                    ctx.ev.violation("oracle", format!("`cgt-tool {}` (one input named twice) prints different bytes in different processes", args.join(" ")), replay_text(prop, "oracle", "process non-determinism with a repeated input path", &l, &[format!("case {name}"), format!("lines dealt round-robin into {k} files; arguments {}", order.join(" "))]));
+                } else if head[0] == "parse" && whole.code == Some(0) && (a.code != whole.code || a.stdout != whole.stdout) {
+                    ctx.ev.violation("oracle", format!("`cgt-tool {}` does not read its inputs in the order given (differs from parsing their concatenation)", args.join(" ")), replay_text(prop, "oracle", "input files not read in argument order", &l, &[format!("case {name}"), format!("lines dealt round-robin into {k} files; arguments {}", order.join(" "))]));
                 }
             }
         }
